@@ -110,7 +110,7 @@ CLAIMS['C10'] = dict(
           'precondition to hold - for format strings of any length and content. Throw sets (virtual dispatch restricted to the writer the '
           'entry constructs), the assertion inventory, the digit-class defaults and the null guards of the pointer overloads close the claim. '
           'The first two iterations of parse_format are additionally interpreted exactly (witnesses over the text alone); C string writers '
-          '(strcat / strncat / strcpy / strncpy) carry a capacity obligation on their destination.'),
+          '(strcat / strncat / strcpy / strncpy) carry a capacity obligation on their destination. The two layout routines every field passes through (format_string, format_numeric_string) are interpreted with every member of the spec free - the width and precision are whatever int the format text narrows to - : every count handed to append_char is bounded by the field width, every run handed to append and every read of the text argument lies inside [text, text + size) (witnesses otherwise, e.g. a width of -2^31 turning into a count near 2^64).'),
     note=('relative to: clang-14 lowering, STIR, the model of strtol (reads from its argument up to at most the NUL; end >= start, > start '
           'on a leading decimal digit); user-defined format_type overloads and iostream internals are outside; assertions of the '
           'floating-point renderer are C13, of the converters C02/C03'),
